@@ -234,6 +234,30 @@ type c19Case struct {
 	args      []string
 	acts      map[string]string // what else a handler does (c19Acts), by function name; absent = nothing
 	stdin     []string          // the lines on the hook's standard input (nil: /dev/null, as the operator starts hooks)
+	looks     map[string]string // where the handler looks at the current context from (c19Looks), by function name; absent = "subst"
+	inherit   string            // "" = the hook process finds no BINDING_CONTEXT_CURRENT_* in its environment (as under the operator); else a stale index it inherits
+}
+
+// c19Looks: where the code that inspects the current context runs. The first group stays inside the
+// handler's shell or a fork of it (shell variables are inherited whether exported or not); the second
+// group is a NEW PROGRAM started by the handler (hooks split into several scripts): only the
+// environment gets there, and the program loads the shell library again.
+//
+//	subst    $(context::jq …) in the handler itself        subshell  ( … ) with output to a file
+//	pipe     a pipeline element fed the filter on stdin    bg        a background job, then wait
+//	script   an executable helper script (#!/bin/bash, sources the library, context::jq)
+//	get      the same helper using context::get
+//	bashc    bash -c 'source <lib>; context::jq …'
+//	nested   the helper script starts the helper script (two execs deep)
+//	xargs    the helper started through other programs (env, xargs) that are not bash
+var c19Looks = []string{"subst", "subshell", "pipe", "bg", "script", "get", "bashc", "nested", "xargs"}
+
+func c19LookClass(m string) string {
+	switch m {
+	case "script", "get", "bashc", "nested", "xargs":
+		return "exec"
+	}
+	return "shell"
 }
 
 // c19Acts: things a handler body may do besides ending with a status. None of them may change which
@@ -271,13 +295,30 @@ func c19Run(r *Run, c *Case, k c19Case, tag string) {
 	var sb strings.Builder
 	sb.WriteString("#!/bin/bash\nsource " + lib + "\n")
 	sb.WriteString("function __config__() { echo 'VERIF-CONFIG-MARKER configVersion: v1'; }\n")
-	sb.WriteString(`function __verif_handler() {
+	sb.WriteString(`function __verif_look() {
+  echo "${BINDING_CONTEXT_CURRENT_INDEX-unset} $(context::jq -r "${1:-.vid}") ${BINDING_CONTEXT_CURRENT_BINDING-unset}"
+}
+function __verif_handler() {
   local seen=-
   case "${2:-}" in
     read) if IFS= read -r seen; then seen="l:$seen"; else seen=eof; fi;;
     cat) seen="a:$(cat | tr '\n' '+')";;
   esac
-  echo "$BINDING_CONTEXT_CURRENT_INDEX $1 $(context::jq -r '.vid') $BINDING_CONTEXT_CURRENT_BINDING $seen" >> "$VERIF_LOG"
+  # where the handler looks at the current context from ($3, c19Looks): "<index> <vid of the context> <binding>"
+  local look=fail
+  case "${3:-subst}" in
+    subst) look=$(__verif_look) || look=fail;;
+    subshell) ( __verif_look > "$VERIF_DIR/look.out" ) || true; look=$(cat "$VERIF_DIR/look.out"); rm -f "$VERIF_DIR/look.out";;
+    pipe) look=$(echo .vid | { IFS= read -r f; __verif_look "$f"; } | cat) || look=fail;;
+    bg) __verif_look > "$VERIF_DIR/look.out" < /dev/null & wait $! || true; look=$(cat "$VERIF_DIR/look.out"); rm -f "$VERIF_DIR/look.out";;
+    script) look=$("$VERIF_DIR/look.sh" jq < /dev/null 2>> "$VERIF_DIR/look.err") || look=fail;;
+    get) look=$("$VERIF_DIR/look.sh" get < /dev/null 2>> "$VERIF_DIR/look.err") || look=fail;;
+    nested) look=$("$VERIF_DIR/look.sh" nested < /dev/null 2>> "$VERIF_DIR/look.err") || look=fail;;
+    bashc) look=$(bash -c 'source "$0"; echo "${BINDING_CONTEXT_CURRENT_INDEX-unset} $(context::jq -r .vid) ${BINDING_CONTEXT_CURRENT_BINDING-unset}"' "$VERIF_LIB" < /dev/null 2>> "$VERIF_DIR/look.err") || look=fail;;
+    xargs) look=$(echo get | env -u VERIF_NO_SUCH_VARIABLE xargs "$VERIF_DIR/look.sh" 2>> "$VERIF_DIR/look.err") || look=fail;;
+  esac
+  [[ -n "$look" ]] || look=fail
+  echo "$BINDING_CONTEXT_CURRENT_INDEX $1 $(context::jq -r '.vid') $BINDING_CONTEXT_CURRENT_BINDING $seen ${look// /|}" >> "$VERIF_LOG"
   local bad=no
   case " $VERIF_FAILIDX " in *" $BINDING_CONTEXT_CURRENT_INDEX "*) bad=yes;; esac
   case " $VERIF_FAILNAMES " in *" $1 "*) bad=yes;; esac
@@ -303,7 +344,7 @@ func c19Run(r *Run, c *Case, k c19Case, tag string) {
 }
 `)
 	for _, n := range k.defined {
-		fmt.Fprintf(&sb, "function %s() { __verif_handler '%s' '%s'; }\n", n, n, k.acts[n])
+		fmt.Fprintf(&sb, "function %s() { __verif_handler '%s' '%s' '%s'; }\n", n, n, k.acts[n], k.looks[n])
 	}
 	sb.WriteString(`if [[ "${VERIF_MODE:-}" == "cands" ]]; then
   n=$(context::global::jq -r 'length')
@@ -319,6 +360,16 @@ hook::run "$@"
 `)
 	hook := filepath.Join(dir, "hook.sh")
 	_ = writeScript(hook, []byte(sb.String()), 0o755)
+	// the helper program a handler may delegate to: a separate script that loads the library again
+	// and reads the current context the documented way
+	_ = writeScript(filepath.Join(dir, "look.sh"), []byte("#!/bin/bash\nsource "+lib+`
+case "${1:-jq}" in
+  jq) v=$(context::jq -r .vid);;
+  get) v=$(context::get vid);;
+  nested) exec "$0" get;;
+esac
+echo "${BINDING_CONTEXT_CURRENT_INDEX-unset} $v ${BINDING_CONTEXT_CURRENT_BINDING-unset}"
+`), 0o755)
 
 	run := func(mode string, start int, args []string) (string, int, bool) {
 		ctx, cancel := context.WithTimeout(context.Background(), 40*time.Second)
@@ -332,7 +383,18 @@ hook::run "$@"
 		for _, i := range k.failIdx {
 			fi = append(fi, fmt.Sprint(i))
 		}
-		cmd.Env = append(os.Environ(), "BINDING_CONTEXT_PATH="+ctxPath, "VERIF_LOG="+logPath,
+		// the environment the hook process starts with: no selection left over from a caller, or a stale one
+		var base []string
+		for _, e := range os.Environ() {
+			if !strings.HasPrefix(e, "BINDING_CONTEXT_") {
+				base = append(base, e)
+			}
+		}
+		if k.inherit != "" {
+			base = append(base, "BINDING_CONTEXT_CURRENT_INDEX="+k.inherit, "BINDING_CONTEXT_CURRENT_BINDING=onStartup",
+				"BINDING_CONTEXT_CURRENT_TYPE=Schedule", "BINDING_CONTEXT_GROUP_NAME=stale")
+		}
+		cmd.Env = append(base, "BINDING_CONTEXT_PATH="+ctxPath, "VERIF_LOG="+logPath, "VERIF_DIR="+dir, "VERIF_LIB="+lib,
 			"VERIF_MODE="+mode, fmt.Sprintf("VERIF_START=%d", start),
 			"VERIF_FAILIDX="+strings.Join(fi, " "), "VERIF_FAILNAMES="+strings.Join(k.failNames, " "),
 			"VERIF_FAILMODE="+k.failMode)
@@ -362,6 +424,20 @@ hook::run "$@"
 	}
 	c.Op("acts "+joinStrs(acts), "ok")
 	c.Op("stdin "+joinStrs(k.stdin), "ok")
+	var looks []string
+	for _, n := range k.defined {
+		if m := k.looks[n]; m != "" {
+			looks = append(looks, n+"="+c19LookClass(m)+":"+m)
+			c.Note("look:" + m)
+		}
+	}
+	c.Op("looks "+joinStrs(looks), "ok")
+	c.Op("inherit "+dash(k.inherit), "ok")
+	if k.inherit != "" {
+		c.Note("inherit:stale-selection")
+	} else {
+		c.Note("inherit:none")
+	}
 
 	// correspondence of the candidate table: what the real function prints for each context
 	cands := make([]string, 0, len(k.ctxs))
@@ -404,7 +480,13 @@ hook::run "$@"
 		c.Inconcl = "bash timed out"
 		return
 	}
-	var entries, seen []string
+	var entries, seen, cur, curOracle []string
+	num := func(t string) string { // a decimal number, or u (unset / the look failed / not a number)
+		if atoiOr(t, -1) < 0 {
+			return "u"
+		}
+		return fmt.Sprint(atoiOr(t, -1))
+	}
 	lb, _ := os.ReadFile(logPath)
 	for _, l := range strings.Split(strings.TrimSpace(string(lb)), "\n") {
 		if l == "" {
@@ -428,6 +510,25 @@ hook::run "$@"
 				name += "!current-binding-wrong"
 			}
 		}
+		// what the code started by the handler saw: index variable, identity (vid = position in the
+		// array) of the context context::jq returned there, binding variable
+		lk := []string{"u", "u", ""}
+		if len(f) >= 6 {
+			if p := strings.Split(f[5], "|"); len(p) == 3 {
+				lk = p
+			}
+		}
+		if i := atoiOr(idx, -1); i >= 0 && i < len(k.ctxs) && lk[2] != "" {
+			want := k.ctxs[i].binding
+			if want == "" {
+				want = "unknown"
+			}
+			if lk[2] != want {
+				name += "!look-binding-is-" + lk[2]
+			}
+		}
+		cur = append(cur, num(lk[0])+"/"+num(lk[1]))
+		curOracle = append(curOracle, num(idx)+":"+num(lk[0])+"/"+num(lk[1]))
 		entries = append(entries, idx+":"+name)
 		if len(f) >= 5 {
 			seen = append(seen, f[4])
@@ -446,9 +547,13 @@ hook::run "$@"
 	obs := fmt.Sprintf("log=%s config=%d ok=%d", joinStrs(entries), config, ok)
 	// correspondence only: what each invoked handler found on the standard input it shares with the
 	// framework (the framework itself reads nothing from it)
-	c.Op(strings.TrimSpace("run "+strings.Join(k.args, " ")), obs+" in="+joinStrs(seen))
+	// cur=: per invocation, the index and the context seen from where the handler looked (model: indexSeen / currentSeen)
+	c.Op(strings.TrimSpace("run "+strings.Join(k.args, " ")), obs+" in="+joinStrs(seen)+" cur="+joinStrs(cur))
 	if wellFormed {
 		c.Oracle(fmt.Sprintf("run args=%s %s", joinStrs(k.args), obs))
+		// the clause "with that context selected as current", wherever the handler looks from:
+		// invocation number n sees index n and the context at position n
+		c.Oracle("current cur=" + joinStrs(curOracle))
 	}
 	if len(entries) < len(k.ctxs) && config == 0 {
 		c.Note("run:stopped-early")
@@ -457,6 +562,22 @@ hook::run "$@"
 	} else {
 		c.Note("run:complete")
 	}
+}
+
+// c19RandLooks draws, for each defined function, where it looks at the current context from:
+// p % of the functions get a mode of c19Looks (60 % of those a new program), the rest keep "subst".
+func c19RandLooks(rng *Rng, defined []string, p int) map[string]string {
+	m := map[string]string{}
+	for _, d := range defined {
+		if rng.Chance(p) {
+			if rng.Chance(60) {
+				m[d] = PickOne(rng, []string{"script", "get", "bashc", "nested", "xargs"})
+			} else {
+				m[d] = PickOne(rng, c19Looks)
+			}
+		}
+	}
+	return m
 }
 
 func atoiOr(s string, d int) int {
@@ -504,7 +625,7 @@ func runC19(r *Run) {
 	// a case runs bash up to three times (each bounded by 40 s and reported inconclusive on timeout):
 	// keep the per-case watchdog above that so a loaded machine never shows up as a `hang`
 	r.CaseTimeout = 150 * time.Second
-	r.Rule = "real bash runs of generated hook scripts that source the repository's shell_lib.sh + frameworks/shell/*.sh: (1) exhaustive single-context cases = every context kind (onStartup, Synchronization, Event Added/Modified/Deleted, Group, Schedule, Validating, Mutating, Conversion) x every subset of its documented candidates + __main__ (76 cases); (2) random arrays of 0..6 contexts of every kind incl. odd shapes (unknown type, no type, no binding, unknown watchEvent, onStartup with a type), random subsets of candidate functions plus decoy functions of other bindings/kinds, failures scripted by context index or handler name ending with return 3 / exit 2 / `false` under set -e, args none / --config / other; thorough adds all ordered pairs of kinds x {all specific handlers, only __main__, nothing for the first, nothing for the second} x failure at {none, first, second}. Observation: (index, handler, context read through context::jq) per invocation in order, config marker on stdout, exit status; plus the output of hook::_get_possible_handler_names per context. Non-trivial: at least one context and not --config; distinct = distinct op-line sequences."
+	r.Rule = "real bash runs of generated hook scripts that source the repository's shell_lib.sh + frameworks/shell/*.sh: (1) exhaustive single-context cases = every context kind (onStartup, Synchronization, Event Added/Modified/Deleted, Group, Schedule, Validating, Mutating, Conversion) x every subset of its documented candidates + __main__ (76 cases); (2) random arrays of 0..6 contexts of every kind incl. odd shapes (unknown type, no type, no binding, unknown watchEvent, onStartup with a type), random subsets of candidate functions plus decoy functions of other bindings/kinds, failures scripted by context index or handler name ending with return 3 / exit 2 / `false` under set -e, args none / --config / other; thorough adds all ordered pairs of kinds x {all specific handlers, only __main__, nothing for the first, nothing for the second} x failure at {none, first, second}. Every defined function also gets a place it looks at the current context from (its own shell: $(…), ( … ), a pipeline element, a background job; or a NEW PROGRAM: an executable helper script that sources the library again and calls context::jq or context::get, bash -c, the helper two execs deep, the helper started through env | xargs), and 15 % of the hooks are started with a stale BINDING_CONTEXT_CURRENT_* selection in their environment; corpus cases 8 (one function, helper script, three contexts) and 9 (one context per way of looking, last handler fails, with and without a stale inherited selection). Observation: (index, handler, context read through context::jq, and index / context / binding seen from where the handler looks) per invocation in order, config marker on stdout, exit status; plus the output of hook::_get_possible_handler_names per context. Non-trivial: at least one context and not --config; distinct = distinct op-line sequences."
 	bindings := []string{"pods", "monitor-pods", "cfg.v1", "kubernetes", "schedule", "a_b", "main", "every*min", "x[1]", "what?"}
 	groups := []string{"g1", "grp-a", "pods"}
 
@@ -565,6 +686,31 @@ func runC19(r *Run) {
 			stdin:   []string{"0", "7", "S2", "3"}, failIdx: []int{2}, failMode: "false"}, "a")
 	})
 
+	r.One(8, func(c *Case, _ *Rng) {
+		c.Desc = "corpus: the handler delegates to a helper script (a new process that loads the library again and calls context::jq); three contexts handled by the same function"
+		c.Nontrivial = true
+		c19Run(r, c, c19Case{ctxs: []c19Ctx{c19Make("added", "pods", ""), c19Make("added", "pods", ""), c19Make("added", "pods", "")},
+			defined: []string{"__on_kubernetes::pods::added", "__on_kubernetes::pods::deleted"},
+			looks:   map[string]string{"__on_kubernetes::pods::added": "script"}, failMode: "return3"}, "a")
+	})
+	r.One(9, func(c *Case, _ *Rng) {
+		c.Desc = "corpus: every way of looking at the current context (forks of the handler's shell, helper script, context::get, bash -c, two execs deep, started through env and xargs), one per context; the hook process inherits a stale selection; the last handler fails"
+		c.Nontrivial = true
+		var k c19Case
+		k.looks = map[string]string{}
+		for i, m := range c19Looks {
+			b := fmt.Sprintf("b%d", i)
+			k.ctxs = append(k.ctxs, c19Make("schedule", b, ""))
+			k.defined = append(k.defined, "__on_schedule::"+b)
+			k.looks["__on_schedule::"+b] = m
+		}
+		k.failIdx = []int{len(c19Looks) - 1}
+		k.failMode = "exit2"
+		c19Run(r, c, k, "a")
+		k.inherit = "3"
+		c19Run(r, c, k, "b")
+	})
+
 	// (1) exhaustive single-context cases
 	type single struct {
 		kind string
@@ -582,7 +728,11 @@ func runC19(r *Run) {
 		s := singles[c.Idx-100]
 		c.Desc = fmt.Sprintf("single %s defined=%v", s.kind, s.def)
 		c.Nontrivial = true
-		c19Run(r, c, c19Case{ctxs: []c19Ctx{c19Make(s.kind, "pods", "g1")}, defined: s.def, failMode: "return3"}, "a")
+		k := c19Case{ctxs: []c19Ctx{c19Make(s.kind, "pods", "g1")}, defined: s.def, failMode: "return3", looks: c19RandLooks(rng, s.def, 50)}
+		if rng.Chance(20) {
+			k.inherit = PickOne(rng, []string{"0", "3", "17"})
+		}
+		c19Run(r, c, k, "a")
 	})
 	r.Exhaust = true
 	r.Extra["exhaustive_scope"] = fmt.Sprintf("all %d (context kind x subset of its candidates + __main__) single-context cases", len(singles))
@@ -614,7 +764,8 @@ func runC19(r *Run) {
 		}
 		c.Desc = fmt.Sprintf("large %s %dK main=%v", z.kind, x.pad/1024, z.main)
 		c.Nontrivial = true
-		c19Run(r, c, c19Case{ctxs: []c19Ctx{pre, x, post}, defined: uniqSorted(def), failMode: "return3"}, "a")
+		def = uniqSorted(def)
+		c19Run(r, c, c19Case{ctxs: []c19Ctx{pre, x, post}, defined: def, failMode: "return3", looks: c19RandLooks(rng, def, 70)}, "a")
 	})
 
 	// (2) random arrays
@@ -708,6 +859,14 @@ func runC19(r *Run) {
 				}
 			}
 		}
+		// where each handler looks at the current context from (its own shell, a fork, a new program),
+		// and whether the hook process itself was started with a stale selection in its environment
+		if pLook := PickOne(rng, []int{0, 40, 100}); pLook > 0 {
+			k.looks = c19RandLooks(rng, k.defined, pLook)
+		}
+		if rng.Chance(15) {
+			k.inherit = PickOne(rng, []string{"0", "3", "17"})
+		}
 		if rng.Chance(30) {
 			k.stdin = []string{}
 			for i, m := 0, rng.Range(0, 5); i < m; i++ {
@@ -767,6 +926,10 @@ func runC19(r *Run) {
 				for _, d := range k.defined {
 					k.acts[d] = PickOne(rng, c19Acts)
 				}
+			}
+			k.looks = c19RandLooks(rng, k.defined, 60)
+			if rng.Chance(10) {
+				k.inherit = PickOne(rng, []string{"0", "1", "17"})
 			}
 			c.Desc = fmt.Sprintf("pair %s,%s mode=%d fail=%d", p.a, p.b, p.mode, p.fail)
 			c.Nontrivial = true
